@@ -287,7 +287,7 @@ def directed_masks():
                         else: holes = [[1], [r], []][others]
                         for d in holes: g[cy + ey * d][cx + ex * d] = 0
                     out.append(["".join(map(str, r)) for r in g])
-    for (H, W, style) in ((12, 12, 0), (17, 16, 0), (17, 17, 1), (13, 21, 2)):
+    for (H, W, style) in ((12, 12, 0), (17, 16, 0), (17, 17, 1), (18, 24, 2)):
         g = [[0] * W for _ in range(H)]
         if style == 1:
             for y in range(H): g[y][0] = g[y][W - 1] = 1
@@ -315,6 +315,19 @@ def kinds_inputs(tier, rng):
         yield {"op": "util", "m": ms, "buffer": 1 + n % 2, "ak": UTIL_KINDS[n % len(UTIL_KINDS)] if n % 2 else "bool"}
         if n % 3 == 0 or len(ms) > 9 or big:
             yield {"op": "views", "m": ms, "g": GEOMS_X[n % 6], "alt": n % 3, "gk": GEOM_KINDS[n % 5], "e": EXPS[n % 4]}
+    # ---- annuli / holes (edge pixels that are not border pixels) through every sibling route of the views
+    for j in range(24 if big else 9):
+        n += 1
+        h, w = rng.randint(5, 9), rng.randint(5, 9)
+        g = [[1] * w for _ in range(h)]
+        y0, x0 = rng.randint(0, 1), rng.randint(0, 1); y1, x1 = h - 1 - rng.randint(0, 1), w - 1 - rng.randint(0, 1)
+        for y in range(y0, y1 + 1):
+            for x in range(x0, x1 + 1): g[y][x] = 0
+        for y in range(y0 + 2, y1 - 1):
+            for x in range(x0 + 2, x1 - 1): g[y][x] = 1
+        if rng.random() < 0.5: g[rng.randint(y0, y1)][rng.randint(x0, x1)] = 1
+        yield {"op": "views", "m": ["".join(map(str, r)) for r in g], "g": GEOMS_X[n % 6], "alt": 1 + n % 3, "gk": GEOM_KINDS[n % 5], "e": EXPS[n % 4],
+               "ak": CTOR_KINDS[n % len(CTOR_KINDS)]}
     # ---- blurring: every side of the array separately exact / one short, kernels up to 9, all kernel kinds and routes
     for kh, kw in ((3, 3), (1, 5), (5, 3), (3, 7), (7, 1), (9, 3), (5, 9)):
         for side in range(5):                      # 0: fits on every side; 1..4: one short at top / bottom / left / right
@@ -382,7 +395,9 @@ def _read(rng, oref, op="views", held=None):
     if op == "util": p = {"buffer": rng.choice([0, 1, 1, 2])}
     return ["read", oref, op, held, order if op == "views" else None, p]
 
-def _hist(g, steps): return {"op": "hist", "g": g, "steps": steps}
+def _hist(g, steps, **kw): return dict({"op": "hist", "g": g, "steps": steps}, **kw)
+HIST_NEW_X = ["kind:" + k for k in CTOR_KINDS] + ["all_false", "from_pixel_coordinates", "circular", "hdu"]
+RAW_KINDS = [k for k in UTIL_KINDS if k != "ro"]
 
 def _reread(rng, o, held=None, k=None):
     """everything is read again from object o: the eleven views, the blurring mask and grid (kernel k, default the (3,3)
@@ -460,28 +475,51 @@ def hist_inputs(tier, rng):
             if n % 5: continue
             yield _hist(GEOMS[n % 4], [["new", "ctor", ms], ["touch", 0, [SEL_NAMES[n % 14], SEL_NAMES[(n // 14) % 14]], n % 2 == 0],
                                        ["edit", EDIT_ROUTES[n % 8], 0, [[n % 3, (n // 3) % 3]], "flip", 0], _read(rng, 0, "views", n % 2 == 0)])
+    # ---- H: input kinds and sibling routes inside histories: an object built from every kind of constructor argument / classmethod
+    #      (the util functions get a twin array of every kind), read through a sibling route with a HELD kernel-shape object of every
+    #      kind, edited, read again through another route; a copy / derived object follows the same path
+    n = 0
+    for rep in range(3 if big else 1):
+        for ri, route in enumerate(HIST_NEW_X):
+            n += 1
+            k = HKS[n % 5]; kk = KERNEL_KINDS[n % 5]
+            def rd(o, op, held=False): return ["read", o, op, held, None, {"k": k, "kk": kk, "buffer": 1}]
+            dv = DERIVES[n % 8]
+            steps = [["new", route + (":sub" if route.startswith("kind:") and n % 2 else ""),
+                      pad(rand_mask(rng, rng.randint(1, 4), rng.randint(1, 4)), k[0] // 2 + n % 2, k[1] // 2 + (n // 2) % 2)],
+                     _read(rng, 0, "views", 1 + n % 4), rd(0, "blur", 1 + (n // 2) % 4), rd(0, "blurgrid", 1 + (n // 3) % 4), rd(0, "blurutil"), rd(0, "util"),
+                     _edit(rng, 0, None, "flip"), _read(rng, 0, "views", 1 + (n + 1) % 4), rd(0, "blurgrid", 1 + n % 4), rd(0, "blur", 1 + (n // 3) % 4),
+                     rd(0, "blurutil"), rd(0, "util"),
+                     ["copy", COPY_ROUTES[n % 5], 0], _read(rng, 1, "views", 1 + (n // 2) % 4), _edit(rng, 1, None, "flip"),
+                     _read(rng, 1, "views", 1 + (n // 3) % 4), rd(1, "blurgrid", 1 + n % 4), _read(rng, 0, "views", n % 5), rd(0, "blur", n % 5),
+                     ["derive", dv[0], dv[1], 0, k[0], k[1]], _read(rng, 2, "views", 1 + n % 4), _edit(rng, 2, None, "flip"),
+                     _read(rng, 2, "views", 1 + (n // 2) % 4), rd(2, "blurgrid", 1 + (n // 3) % 4), _edit(rng, 0, None, "flip"),
+                     _read(rng, 0, "views", (n // 2) % 5), _read(rng, 1, "views", False), _read(rng, 2, "views", False)]
+            yield _hist(GEOMS_X[n % 6], steps, e=EXPS[n % 4] if route != "hdu" else 0, gk=GEOM_KINDS[(n // 2) % 5], rk=RAW_KINDS[n % len(RAW_KINDS)])
     # ---- F: random programs (one preferred kernel per history, so that the same call is repeated across edits)
     for j in range(1500 if big else 150):
         steps = [["new", rng.choice(NEW_ROUTES[:5]), _rows(rng, big)]]
+        xk = {"e": rng.choice(EXPS), "gk": rng.choice(GEOM_KINDS), "rk": rng.choice(RAW_KINDS)} if j % 3 == 0 else {}
         hk = rng.choice(HKS)
         def kk(): return hk if rng.random() < 0.75 else rng.choice(HKS)
         for _ in range(rng.randint(4, 14)):
             r = rng.random(); o = rng.randrange(8)
             if r < 0.30: steps.append(_edit(rng, o))
-            elif r < 0.48: steps.append(_read(rng, o, "views"))
+            elif r < 0.48: steps.append(_read(rng, o, "views", rng.randrange(5) if xk and rng.random() < 0.5 else None))
             elif r < 0.62:
                 rd = _read(rng, o, rng.choice(["util", "checkedge", "blurutil", "blur", "blur", "blurgrid", "blurgrid", "contents"]))
                 if "k" in rd[5]: rd[5] = {"k": kk()}
+                if "k" in rd[5] and xk: rd[5]["kk"] = rng.choice(KERNEL_KINDS); rd[3] = rng.randrange(5)
                 steps.append(rd)
             elif r < 0.76: steps.append(["touch", o, rng.sample(SEL_NAMES, rng.randint(1, 4)), rng.random() < 0.4])
             elif r < 0.84: steps.append(["copy", rng.choice(COPY_ROUTES), o])
             elif r < 0.93:
                 d = rng.choice(DERIVES); k = kk()
                 steps.append(["derive", d[0], d[1], o, k[0], k[1]])
-            elif r < 0.97: steps.append(["new", rng.choice(NEW_ROUTES), _rows(rng, big)])
+            elif r < 0.97: steps.append(["new", rng.choice(HIST_NEW_X[:-1]) + rng.choice(["", ":sub"]) if xk and rng.random() < 0.6 else rng.choice(NEW_ROUTES), _rows(rng, big)])
             else: steps.append(["resized", o, rng.randint(-1, 2), rng.randint(-1, 2)])
         steps += _reread(rng, rng.randrange(8), None, hk)
-        yield _hist(rng.choice(GEOMS_X), steps)
+        yield _hist(rng.choice(GEOMS_X), steps, **xk)
 
 # ----------------------------------------------------------------------------- implementation calls
 def _classify(M):
@@ -696,22 +734,32 @@ def _cell(ob_shape, iy, ix, neg):
 
 def run_hist(aa, inp):
     import copy as _copy
-    g = inp["g"]; sy, sx, oy, ox = g
-    ps, org = (float(sy), float(sx)), (float(oy), float(ox))
+    g = inp["g"]; e = inp.get("e", 0); gk = inp.get("gk", "tuple"); rk = inp.get("rk")
+    ps, org, ps_exp, org_exp = mk_geom(g, gk, e)          # the SAME pixel-scales / origin objects go into every constructor call
+    geo0 = [fp(ps), fp(org)]
     objs = []; steps = []; log = []; problems = []
     nreads = 0; nedits = 0
+    kerns = {}                                            # kernel-shape objects are held and re-used across the reads of a history
+    def kern_of(p):
+        key = (p["k"][0], p["k"][1], p.get("kk", "tuple"))
+        if key not in kerns: kerns[key] = mk_kernel(aa, p["k"], key[2]); kerns[key] = (kerns[key], fp(kerns[key]))
+        return kerns[key][0]
 
     def cur(ob): return mask_out(np.array(ob.m))
     def handles(ob, held):
+        """False: fresh derive_* objects through the properties; True: the objects obtained at the first held read of this object;
+        2, 3, 4: sibling routes 1, 2, 3 (alt_handles), fresh"""
         if not held: return None
+        if held is not True and int(held) > 1: return alt_handles(aa, ob.m, int(held) - 1)
         if ob.h is None: ob.h = (ob.m.derive_indexes, ob.m.derive_mask, ob.m.derive_grid)
         return ob.h
+    def alt_of(held): return int(held) - 1 if (held is not True and held and int(held) > 1) else 0
     def check_arg(ob):
-        if ob.arg is not None and not np.array_equal(np.asarray(ob.arg), ob.arg0):
+        if ob.arg is not None and fp(ob.arg) != ob.arg0:
             problems.append("the array given to the Mask2D constructor was modified")
         ob.arg = None
     def add(m, contents_rows):
-        ob = _Obj(m, np.array(contents_rows, dtype=bool)); objs.append(ob); return ob
+        ob = _Obj(m, mk_array(mask_out(contents_rows), rk)[0] if rk else np.array(contents_rows, dtype=bool)); objs.append(ob); return ob
 
     for st in inp["steps"]:
         kind = st[0]
@@ -723,15 +771,33 @@ def run_hist(aa, inp):
             elif route == "ctor_int": arg = a.astype(int); m = aa.Mask2D(mask=arg, pixel_scales=ps, origin=org)
             elif route == "ctor_invert": arg = ~a; m = aa.Mask2D(mask=arg, pixel_scales=ps, origin=org, invert=True)
             elif route == "with_new_array" and objs: arg = None; m = objs[0].m.with_new_array(a.copy())
+            elif route.startswith("kind:"):
+                obj_, arg = mk_array(M, route.split(":")[1], aa)
+                # "kind:<k>:sub" builds an instance of a user SUBCLASS of Mask2D
+                m = (_sub2d(aa) if route.endswith(":sub") else aa.Mask2D)(mask=obj_, pixel_scales=ps, origin=org)
+            elif route.split(":")[0] in ("all_false", "from_pixel_coordinates", "circular", "hdu"):
+                route = route.split(":")[0]
+                # constructor classmethods: the contents are whatever the classmethod produced (other properties judge that);
+                # what is checked here is that every view of the new object describes those contents, now and after edits
+                arg = None; H, W = a.shape
+                if route == "all_false": m = aa.Mask2D.all_false(shape_native=(H, W), pixel_scales=ps, origin=org)
+                elif route == "from_pixel_coordinates":
+                    m = aa.Mask2D.from_pixel_coordinates(shape_native=(H, W), pixel_coordinates=[[y, x] for y in range(H) for x in range(W) if not a[y, x]],
+                                                         pixel_scales=ps, origin=org, buffer=0)
+                elif route == "circular":
+                    m = aa.Mask2D.circular(shape_native=(H, W), radius=1.5 * ps_exp[0], pixel_scales=ps, origin=org, centre=org_exp)
+                else:
+                    m = aa.Mask2D.from_primary_hdu(primary_hdu=aa.Mask2D(mask=a, pixel_scales=ps, origin=org).hdu_for_output, origin=org)
+                M = mask_out(np.array(m))
             else: arg = a.copy(); m = aa.Mask2D(mask=arg, pixel_scales=ps, origin=org)
             ob = add(m, M)
-            if arg is not None and not isinstance(arg, list): ob.arg = arg; ob.arg0 = np.array(arg, copy=True)
+            if arg is not None and not isinstance(arg, list): ob.arg = arg; ob.arg0 = fp(arg)
             steps.append(f"HNew {cmask(M)}"); log.append(["new", route])
         elif kind == "resized":
             _, oref, dh, dw = st
             o = oref % len(objs); src = objs[o]; H, W = src.raw.shape
             m = src.m.resized_from(new_shape=(max(1, H + dh), max(1, W + dw)), pad_value=1)
-            M = cur_rows = mask_out(np.array(m)); add(m, M)
+            M = mask_out(np.array(m)); add(m, M)
             steps.append(f"HNew {cmask(M)}"); log.append(["resized", o])
         elif kind == "copy":
             _, route, oref = st
@@ -788,7 +854,7 @@ def run_hist(aa, inp):
             _, oref, names, held = st
             o = oref % len(objs); ob = objs[o]
             for name in names:
-                r = call_res(lambda: _view(aa, ob.m, name, handles(ob, held), ob.raw))
+                r = call_res(lambda: _view(aa, ob.m, name, handles(ob, held), ob.raw, e))
                 if r[0] == "raise": problems.append(f"reading {name} raised {r[1]}")
                 else: ob.seen[name] = r[1]
             if mask_out(ob.raw) != cur(ob): problems.append("a partial read changed the object or the array given to a util function")
@@ -798,7 +864,8 @@ def run_hist(aa, inp):
             o = oref % len(objs); ob = objs[o]
             M = cur(ob) if op in ("views", "blur", "blurgrid", "contents") else mask_out(ob.raw)
             term, out, py_ok, detail = _observe(aa, op, p, M, lambda: ob.m, lambda: ob.raw, g, handles(ob, held),
-                                                [VIEW_FIELDS[i] for i in order] if order else None)
+                                                [VIEW_FIELDS[i] for i in order] if order else None, e, kern_of(p) if "k" in p else None,
+                                                alt_of(held))
             if py_ok is False: problems.append(detail); continue
             if op in ("util", "checkedge", "blurutil"):
                 M2 = mask_out(ob.raw)                       # the util functions must not touch their argument
@@ -812,8 +879,12 @@ def run_hist(aa, inp):
         else:
             raise ValueError(kind)
     # finally every object shows its contents once more (nothing was changed by a read) and so does every twin
+    if [fp(ps), fp(org)] != geo0: problems.append("the pixel scales / origin object given to the constructors was modified")
+    if any(fp(k) != f0 for k, f0 in kerns.values()): problems.append("a kernel-shape object was modified by a call")
     for o, ob in enumerate(objs):
         check_arg(ob)
+        if tuple(float(v) for v in ob.m.pixel_scales) != ps_exp or tuple(float(v) for v in ob.m.origin) != org_exp:
+            problems.append(f"object {o} does not carry the pixel scales / origin of the history ({ob.m.pixel_scales}, {ob.m.origin})")
         steps.append(f"HRead {o}%nat (KContents {cmask(cur(ob))})")
         steps.append(f"HRead {o}%nat (KContents {cmask(mask_out(ob.raw))})")
     _t("hist"); _t(f"hist:objects={len(objs)}"); _t(f"hist:edits={min(nedits, 5)}{'+' if nedits >= 5 else ''}")
